@@ -4,6 +4,10 @@
 methods is a scheduler-controlled yield and the mutex is cooperative. /repo is not touched."""
 import json, os, subprocess, sys
 repo, build = sys.argv[1], sys.argv[2]
+if os.environ.get("VERIF_RACE") == "1":
+    # race-detector tier: the unrewritten source runs with really concurrent tasks
+    print("{}")
+    sys.exit(0)
 verif = os.path.dirname(os.path.dirname(os.path.dirname(os.path.abspath(__file__))))
 go = "/opt/veriftools/go1.26.8/bin/go"
 env = dict(os.environ, GOFLAGS="-mod=mod", GOPROXY="off", GOSUMDB="off", GOTOOLCHAIN="local")
